@@ -477,7 +477,8 @@ func (s *stdioTransport) processMessage(ctx context.Context, line string, writer
 	var rawMessage json.RawMessage
 	if err := json.Unmarshal([]byte(line), &rawMessage); err != nil {
 		s.logger.Errorf("Invalid JSON received: %v", err)
-		return nil
+		// An unparsable line is answered with a JSON-RPC parse error instead of being dropped silently.
+		return s.writeResponse(newJSONRPCErrorResponse(nil, ErrCodeParse, "Parse error", nil), writer)
 	}
 
 	msgType, err := parseJSONRPCMessageType(rawMessage)
